@@ -28,6 +28,8 @@ class Src:
         self.kind, self.eq, self.calls = kind, eq, 0
 
     def value(self, x, q):
+        if self.kind == "f":        # a constant given as a python float (broadcast over the cells)
+            return 0.45 - 0.2 * self.eq
         if self.kind == "c":
             return 0.7 + 0.1 * self.eq + 0.0 * x
         if self.kind == "x":
@@ -36,7 +38,8 @@ class Src:
 
     def __call__(self, x, q):
         self.calls += 1
-        return self.value(np.asarray(x, float), [np.asarray(d, float) for d in q])
+        v = self.value(np.asarray(x, float), [np.asarray(d, float) for d in q])
+        return float(v) if self.kind == "f" else v
 
 
 def make(mkind, law, sources):
@@ -52,12 +55,14 @@ MESHES = [("uni", 1, 1.0, 0.0), ("uni", 3, 2.0, -1.0), ("ref", 4, 1.0, 2.0, 1, 1
 
 def check(mkind, law, flux, rname, mspec, kinds, idx, res=None):
     neq = 2 if mkind == "shallowwater" else 3
-    srcs = [Src(k, i) if k else None for i, k in enumerate(kinds)]
+    shared = Src("q", 0)       # letter "S": one and the same function object given for several equations
+    srcs = [(shared if k == "S" else Src(k, i)) if k else None for i, k in enumerate(kinds)]
     mesh = space.mesh_spec(mspec)
     out = []
     site = "C19/%s%s" % (mkind, "/" + law if law else "")
     try:
-        m_with = make(mkind, law, list(srcs) if any(srcs) else None)
+        container = tuple(srcs) if (kinds.count("f") and mkind != "nozzle") else list(srcs)      # a tuple is as good a per-equation sequence as a list
+        m_with = make(mkind, law, container if any(srcs) else None)
         m_wo = make(mkind, law, None)
         bc = {"type": "per"}
         d_with = space.modeldisc.fvm(m_with, mesh, space.recon(rname), numflux=flux, bcL=bc, bcR=bc)
@@ -75,7 +80,7 @@ def check(mkind, law, flux, rname, mspec, kinds, idx, res=None):
     x = np.asarray(mesh.centers(), float)
     q = [np.asarray(d, float) for d in f.data]
     for i in range(neq):
-        want = srcs[i].value(x, q) if srcs[i] else np.zeros(mesh.ncell)
+        want = (srcs[i].value(x, q) + np.zeros(mesh.ncell)) if srcs[i] else np.zeros(mesh.ncell)
         got = Rw[i] - R0[i]
         sc = np.abs(want) + np.abs(R0[i]) + np.abs(Rw[i]) + 1e-300
         err = (np.abs(got - want) / sc).max() / EPS
@@ -86,7 +91,7 @@ def check(mkind, law, flux, rname, mspec, kinds, idx, res=None):
             out.append((site + "/eq%d/%s" % (i, "own-source" if srcs[i] else "no-source-here"),
                         "%s %s %s %s mesh %r sources %r data %r: rhs(with)-rhs(without) on equation %d is %r, source_%d(x,Q) = %r" % (
                             mkind, law, flux, rname, mspec, kinds, idx, i, got.tolist(), i, want.tolist())))
-        if srcs[i] and srcs[i].calls != 1:
+        if srcs[i] and srcs[i].calls != (kinds.count("S") if kinds[i] == "S" else 1):
             out.append((site + "/called-once", "%s %s sources %r: source %d was called %d times during one rhs" % (mkind, law, kinds, i, srcs[i].calls)))
     return out
 
@@ -133,7 +138,8 @@ def shard(arg):
     mkind, law, flux, rname = arg
     res = core.Res()
     neq = 2 if mkind == "shallowwater" else 3
-    for kinds in itertools.product((None, "c", "x", "q"), repeat=neq):
+    extra = [k for k in itertools.product((None, "f", "q"), repeat=neq) if "f" in k] + [k for k in itertools.product((None, "S", "x"), repeat=neq) if k.count("S") >= 2]
+    for kinds in list(itertools.product((None, "c", "x", "q"), repeat=neq)) + extra:
         for mspec in MESHES:
             n = mspec[1] if mspec[0] in ("uni", "ref") else len(mspec[1])
             for idx in itertools.product(range(3), repeat=n):
